@@ -36,7 +36,7 @@ MANIFEST = dict(
         "CMA::updatePopulation, ElitistCMA::step, CMSA::updatePopulation, VDCMA::updateStrategyParameters and CrossEntropyMethod's update are re-computed step by step by the models from the real run's own state and samples (one-step refinement; ECMA/CMSA/CEM bit-identical, CMA and VD-CMA bit-identical or 1e-9 behind BLAS/eigensolver/remora kernels); "
         "whole SimplexDownhill runs are re-computed from the starting point (objective evaluated in Lean) and compared bit for bit. "
         "Independent oracle on the real CMA (all recombination types, user-set lambda from 2 to 200 incl. lambda >> n), CMSA, ElitistCMA, VD-CMA, CrossEntropyMethod (user-set population / selection / variance), SimplexDownhill, n from 1 to 60, after init and after every step: "
-        "sigma>0 finite; covariance symmetric + own Cholesky (CMA) / valid Cholesky factor (CMSA, ElitistCMA) / D finite non-zero, v finite, |v|>0 (VD-CMA) / variance finite >=0 (CEM); mean and paths finite; weights positive, non-increasing, sum 1; learning rates in range; "
+        "sigma>0 finite; covariance symmetric (1e-9 relative + 1e-16 absolute, F13) + own Cholesky of the symmetric part (C+C^T)/2, failing only on a pivot that is certifiably negative (below -64 n eps C_ii; pivots within rounding of zero are counted as undecided) (CMA) / valid Cholesky factor (CMSA, ElitistCMA) / D finite non-zero, v finite, |v|>0 (VD-CMA) / variance finite >=0 (CEM); mean and paths finite; weights positive, non-increasing, sum 1; learning rates in range; "
         "value = f(closest feasible point) bit-exact; 9 runs per case with the same seed: fresh, fresh, RE-INITIALISED used object, an object first USED ON ANOTHER PROBLEM (other dimension, smaller or larger, other start and seed, per-run state overwritten through the after-init setters) and then initialised, "
         "and f rescaled by 2, 1/8, a piecewise-linear exact map and by 2^340 (objective values beyond 1e100; identical points and step sizes); a share of the cases runs on the objective scaled by 2^340 from the start; elitist variants monotone (ElitistCMA: reported value without a box; penalized fitness of every newly accepted parent, read from the individual, with and without a box); best <= every simplex vertex; sphere convergence for all six methods "
         "(generator kind, init overload, activeUpdate and recombination type drawn at random). "
@@ -555,6 +555,8 @@ def run_case(ctx, hcmd, dcmd, ops, timeout=600, stats=None):
             r.bad_lines.add(i)
             r.oracle.append(line.split(" !oracle")[0][:200] + " ... " + line[line.index("!oracle"):][:300]); r.ok = False
         payload = line.split(" !oracle")[0]
+        m_pd = re.search(r" pd-undecided=(\d+)", payload)
+        if m_pd and stats is not None: stats["cma_steps_pd_undecided"] = stats.get("cma_steps_pd_undecided", 0) + int(m_pd.group(1))
         if o.startswith("coeffs"):
             dops.append(" ".join(x for x in o.split() if "=" not in x)); expect.append(("equal", payload))
         elif o.startswith("cmatrace") and payload.startswith("trace"):
